@@ -6,22 +6,23 @@ From Verif Require Import Base.Lex SnapRead.Model SnapRead.ModelRead SnapRead.Pr
 (* For every truth (ascending keys), every snapshot ts, all bounds (empty = unbounded; even lo > hi),
    every batch size (0 and 1 are replaced by the default, sizes above 2^32-1 are capped, as in newScanner), key-only or not, EVERY
    sequence of region layouts (one per getData call, split points drawn from a finite set P) and
-   EVERY sequence of lock sets met by the scan requests: the scan terminates within
-   |P| + |T| + 2 getData calls without panic and its concatenated output is exactly
+   EVERY sequence of lock sets met by the scan requests, EVERY schedule of retries (region errors and
+   response-level lock errors: RPCs that leave the cursor where it is) with at most R retries: the scan
+   terminates within |P| + |T| + 2 + R scan RPCs without panic and its concatenated output is exactly
    [(k,v) | in_range lo hi k, read_at ts k = Some v], ascending (descending for reverse) — so no
    key is repeated or skipped.  Under key-only the keys are compared (canon).
    Reverse scans from the end of the key space (hi = []) are covered for every layout sequence
    (LocateEndKey("") returns the last region since 0dbaf7e; formerly refuted, F08b). *)
 Lemma C05_scan_complete_proof :
   forall (T : truth) (ts : N) (lo hi : key) (B : nat) (ko rv : bool)
-         (lay : nat -> layout) (lk : nat -> list key) (P : list key),
-    tsorted T -> (forall i, incl (lay i) P) ->
+         (retry : nat -> option retry_kind) (R : nat) (lay : nat -> layout) (lk : nat -> list key) (P : list key),
+    tsorted T -> (forall i, incl (lay i) P) -> bounded_retry retry 0 R ->
     (rv = true -> forall e, In e T -> fst e <> []) ->
     exists out,
-      scan (length P + length T + 2) B ko ts T lay lk lo hi rv = Done out /\
+      scan (length P + length T + 2 + R) B ko ts T retry lay lk lo hi rv = Done out /\
       map (canon ko) out = map (canon ko) (if rv then rev (expected ts lo hi T) else expected ts lo hi T).
 Proof.
-  intros T ts lo hi B ko rv lay lk P HT Hlay Hrv. destruct rv.
+  intros T ts lo hi B ko rv retry R lay lk P HT Hlay Hb Hrv. destruct rv.
   - apply scan_reverse_complete; auto.
   - apply scan_forward_complete; assumption.
 Qed.
@@ -38,12 +39,12 @@ Lemma C05_paths_agree_proof :
     (forall fuel ev L0 keys res w' rs',
         batch_get fuel ev L0 w ts keys = (Some res, w', rs') ->
         forall k v, In (k, v) res <-> In k keys /\ read_at ts k T = Some v) /\
-    (tsorted T -> forall lo hi B ko lay lk P, (forall i, incl (lay i) P) ->
-        exists out, scan (length P + length T + 2) B ko ts T lay lk lo hi false = Done out /\
+    (tsorted T -> forall lo hi B ko retry R lay lk P, (forall i, incl (lay i) P) -> bounded_retry retry 0 R ->
+        exists out, scan (length P + length T + 2 + R) B ko ts T retry lay lk lo hi false = Done out /\
                     map (canon ko) out = map (canon ko) (expected ts lo hi T)) /\
     (tsorted T -> (forall e, In e T -> fst e <> []) ->
-        forall lo hi B ko lay lk P, (forall i, incl (lay i) P) ->
-        exists out, scan (length P + length T + 2) B ko ts T lay lk lo hi true = Done out /\
+        forall lo hi B ko retry R lay lk P, (forall i, incl (lay i) P) -> bounded_retry retry 0 R ->
+        exists out, scan (length P + length T + 2 + R) B ko ts T retry lay lk lo hi true = Done out /\
                     map (canon ko) out = map (canon ko) (rev (expected ts lo hi T))).
 Proof.
   intros w ts Htx T.
@@ -59,8 +60,8 @@ Proof.
     rewrite Hread. split.
     + intros Hr. destruct (B2 _ _ Hr) as [[]|[Hk Hv]]. split; [apply (group_keys_mem Fin L0 keys k); exact Hk|exact Hv].
     + intros [Hk Hv]. apply B3; [apply (group_keys_mem Fin L0 keys k); exact Hk|exact Hv].
-  - intros HT lo hi B ko lay lk P Hlay. apply scan_forward_complete; assumption.
-  - intros HT Hnn lo hi B ko lay lk P Hlay. apply scan_reverse_complete; assumption.
+  - intros HT lo hi B ko retry R lay lk P Hlay Hb. apply scan_forward_complete; assumption.
+  - intros HT Hnn lo hi B ko retry R lay lk P Hlay Hb. apply scan_reverse_complete; assumption.
 Qed.
 
 (* Termination of the two fuelled read loops.  Environment assumption (part of the world): a live
